@@ -7,7 +7,8 @@
   writers (the schema is taken from `batches[0]`), so the only thing the batch structure decides is
   `batches.is_empty()` (`noBatches`).
 
-  Deviation switches (all off = the intended writers = proposed_fixes/C40-cli-escaping.patch):
+  Deviation switches (all off = the intended writers = the code since /repo commit 18209de, `fix: CLI CSV output
+  quotes CR and header names; JSON output escapes …`; all on = `Dev.legacy`, the writers before that commit):
     * `csvCrUnquoted`    (C40-F1) a value containing `\r` (but no `,` `"` `\n`) is written unquoted;
     * `csvRawHeader`     (C40-F2) column names are joined with `,` without any quoting;
     * `jsonRawControl`   (C40-F3) only `\` and `"` are escaped in JSON strings: U+0000..U+001F go out raw;
